@@ -582,6 +582,12 @@ func (st *tunnelServerStream) readMsgLocked() (data []byte, ok bool, err error) 
 		in, ok := st.receiver.dequeue()
 		if !ok {
 			verifYield("server.read.dequeueFalse")
+			// If the stream was cancelled, queued request data may have been
+			// discarded, so do not report a clean end-of-stream even if a
+			// half-close had been received before the cancellation.
+			if err := st.ctx.Err(); err != nil {
+				return nil, true, err
+			}
 			var err error
 			if halfClosedErr := st.halfClosed.Load(); halfClosedErr != nil {
 				err = halfClosedErr.error
